@@ -172,7 +172,7 @@ theorem C14_reachable (s : Sys) (l : List Step) (h : s.reward.Inv) : (s.steps l)
       | stsei blk sender funds tm _ hx' h b r d g => rw [r]; exact hp
       | reward s1 sender funds rm _ _ _ _ hx' h b t d g => exact C14_inv_step _ _ _ _ _ _ _ _ _ hp hx'
       | disp env sender funds dm _ hx' h b t r g => rw [r]; exact hp
-      | reg s1 sender funds rm _ h1 hx' h b t r d => rw [r]; exact hp)
+      | reg s1 sender funds rm _ h1 _ _ hx' h b t r d => rw [r]; exact hp)
     (by
       intro x e hp
       cases e with
@@ -320,7 +320,7 @@ theorem FundInv.step (o : Addr × Addr) (rd : Denom) (s s' : Sys) (m : Msg) (res
         | stsei _ _ _ _ heq _ _ _ _ _ _ => injection heq with _ e2 _ _; simp [e2, internal]
         | reward _ _ _ _ heq _ _ _ _ _ _ _ _ _ => injection heq with _ e2 _ _; simp [e2, internal]
         | disp _ _ _ _ heq _ _ _ _ _ _ => injection heq with _ e2 _ _; simp [e2, internal]
-        | reg _ _ _ _ heq _ _ _ _ _ _ _ => injection heq with _ e2 _ _; simp [e2, internal]
+        | reg _ _ _ _ heq _ _ _ _ _ _ _ _ _ => injection heq with _ e2 _ _; simp [e2, internal]
       have ha : a = b0 := hb
       rw [ha]
       exact ⟨internal_ne_ext hin inv.ext1, internal_ne_ext hin inv.ext2⟩
@@ -346,7 +346,7 @@ theorem FundInv.step (o : Addr × Addr) (rd : Denom) (s s' : Sys) (m : Msg) (res
     | bsei _ _ _ _ _ _ _ _ _ r _ _ => rw [r]; exact ⟨rfl, rfl, rfl, rfl⟩
     | stsei _ _ _ _ _ _ _ _ r _ _ => rw [r]; exact ⟨rfl, rfl, rfl, rfl⟩
     | disp _ _ _ _ _ _ _ _ _ r _ => rw [r]; exact ⟨rfl, rfl, rfl, rfl⟩
-    | reg _ _ _ _ _ _ _ _ _ _ r _ => rw [r]; exact ⟨rfl, rfl, rfl, rfl⟩
+    | reg _ _ _ _ _ _ _ _ _ _ _ _ r _ => rw [r]; exact ⟨rfl, rfl, rfl, rfl⟩
     | reward s1 sender funds rm heq h1 _ _ hx' _ _ _ _ _ =>
       have hs := hsnd _ _ _ _ heq
       have c1 := rewardExec_config _ _ _ _ _ _ _ _ _ hx'
@@ -383,7 +383,7 @@ theorem FundInv.step (o : Addr × Addr) (rd : Denom) (s s' : Sys) (m : Msg) (res
         | stsei _ _ _ _ heq _ _ _ _ _ _ => cases heq
         | reward _ _ _ _ heq _ _ _ _ _ _ _ _ _ => cases heq
         | disp _ _ _ _ heq _ _ _ _ _ _ => cases heq
-        | reg _ _ _ _ heq _ _ _ _ _ _ _ => cases heq
+        | reg _ _ _ _ heq _ _ _ _ _ _ _ _ _ => cases heq
       subst hsub
       refine base A' rest (by simp [h2]) hA' hrest ?_
       rw [hrw]
@@ -427,7 +427,7 @@ theorem FundInv.step (o : Addr × Addr) (rd : Denom) (s s' : Sys) (m : Msg) (res
         | stsei _ _ _ _ heq _ _ _ _ _ _ => injection heq with _ _ e3 _; cases e3
         | reward _ _ _ _ heq _ _ _ _ _ _ _ _ _ => injection heq with _ _ e3 _; cases e3
         | disp _ _ _ _ heq _ _ _ _ _ _ => injection heq with _ _ e3 _; cases e3
-        | reg _ _ _ _ heq _ _ _ _ _ _ _ => injection heq with _ _ e3 _; cases e3
+        | reg _ _ _ _ heq _ _ _ _ _ _ _ _ _ => injection heq with _ _ e3 _; cases e3
       | _ => simp [isRw] at hm
     | _ => simp [isRw] at hm
   | nil =>
@@ -456,7 +456,7 @@ theorem FundInv.step (o : Addr × Addr) (rd : Denom) (s s' : Sys) (m : Msg) (res
       exact other r (fun x hx' => by rw [(sent.1 _ _ _ _ heq) x hx']; decide)
     | disp env sender funds dm heq _ _ _ _ r _ =>
       exact other r (fun x hx' => by rw [(sent.1 _ _ _ _ heq) x hx']; decide)
-    | reg s1 sender funds rm heq _ _ _ _ _ r _ =>
+    | reg s1 sender funds rm heq _ _ _ _ _ _ _ r _ =>
       exact other r (fun x hx' => by rw [(sent.1 _ _ _ _ heq) x hx']; decide)
     | reward s1 sender funds rm heq h1 hmv hch hx' _ _ _ _ _ =>
       -- the handler sees the bank balance after the attached funds arrived
